@@ -3,8 +3,8 @@ import re
 
 from . import shared
 from ..mir import op_base, op_place, short, const_int
-from ..flow import flow_forward
-from .panics import canon, resolve_place, pretty_sig
+from ..flow import flow_forward, bool_branch, edge_dominates
+from .panics import canon, resolve_place, pretty_sig, _cmp_facts
 
 EXPLANATION = (
     "Structural necessary conditions of byte-exact relaying, decided on MIR: W1 no write primitive's byte count is discarded "
@@ -14,13 +14,61 @@ EXPLANATION = (
     "zero-length test, the byte counter and the slice bound use the same value; O1 no static/thread-local byte container exists and the "
     "relay buffer is allocated per copy_half call. Does not decide equality of delivered streams over all segmentations."
     " WIRE the sets of socket-operation layouts (field widths, NUL-terminated / length-prefixed strings, per successful path) written by the SOCKS4 request, SOCKS4 reply and SOCKS5 reply encoders equal those read by the project's own decoders; BUF every store into GlobalState.io_params is dominated by the non-zero edge of a test of buffer_size."
-    " DELIM: a delimiter-terminated handshake field is accepted only behind the edge on which the delimiter was seen (C12's S2); WIRE also follows fields assembled in a buffer (REQ5 negotiation+request compared exactly).")
+    " DELIM: a delimiter-terminated handshake field is accepted only behind the edge on which the delimiter was seen (C12's S2); WIRE also follows fields assembled in a buffer (REQ5 negotiation+request compared exactly)."
+    ' HEAD-END: in the HTTP codec a function that reads lines in a loop returns success only over the edge on which the line just read was found empty (a bounded loop that runs out leaves the rest of the head for the tunnel).')
 RULE_TEXT = "instances = write sites, writer functions, unwrap sites, relay arms, statics; non-trivial = those needing a dataflow/dominance argument"
 TRUSTED = ["tokio BufReader/BufWriter/read/write_all contracts", "kernel splice semantics", "TLS record handling in rustls"]
 NOT_DECIDED = ["equality of the delivered stream over all segmentations and payloads", "TLS record handling", "kernel splice semantics"]
 
 RELAY_FILES = ["src/copy.rs", "src/common/http.rs", "src/common/socks.rs", "src/common/h11c.rs", "src/common/frames.rs",
                "src/common/udp.rs", "src/common/quic.rs", "src/listeners/socks.rs", "src/connectors/socks.rs", "src/connectors/http.rs"]
+
+
+_EMPTY_TEST = re.compile(r"str::<impl str>::is_empty$|string::String::is_empty$|slice::<impl \[T\]>::is_empty$|Vec::<T, A>::is_empty$")
+
+
+def rule_head_end(chk, prog, rule="HEAD-END"):
+    """A message head ends at its blank line.  In the HTTP codec every function that reads lines in a loop (the header block reader)
+    may return success only over the edge on which the line just read was found empty: an exit of the loop by any other way (a
+    bounded `for`, a counter) returns with the rest of the head unread, and the unread rest is then relayed as tunnel payload."""
+    from ..flow import awaited, result_blocks
+    n = 0
+    for f in sorted(prog.fns.values(), key=lambda x: x.key):
+        if f.crate != "redproxy_rs" or not f.file.endswith("src/common/http.rs"):
+            continue
+        succ = f.succ
+        for c in f.user_calls:
+            if not re.search(r"common::http::read_line$|AsyncBufReadExt::(read_line|read_until)$", c.name or c.path or ""):
+                continue
+            if c.bb not in f.reach_from(succ[c.bb]):
+                continue                                   # not in a loop: a single line (request / status line)
+            n += 1
+            aw = awaited(f, c)
+            seeds = [aw["result"]] if aw and aw.get("result") is not None else [c.dest[0]]
+            tracked, cons = flow_forward(f, seeds, [r"Try::branch$", r"Deref::deref$", r"str::<impl str>::trim", r"String::as_str$", r"AsRef::as_ref$"])
+            edges = []
+            for kind, b, info, l in cons:
+                if kind == "call" and _EMPTY_TEST.search(info.path or ""):
+                    for (sb, tt, ft) in bool_branch(f, info.dest[0]):
+                        edges.append((sb, tt))
+            for (sb, tb, cop, a, b) in _cmp_facts(f):
+                # `line.len() == 0`
+                for x, y in ((a, b), (b, a)):
+                    if cop == "Eq" and const_int(y) == 0 and op_base(x) is not None:
+                        d = f.def_call(op_base(x))
+                        if d is not None and re.search(r"::len$", d.path or "") and d.args and op_base(d.args[0]) in tracked:
+                            edges.append((sb, tb))
+            oks = [b for b in result_blocks(f, "Ok") if b in f.reach_from([c.bb])]
+            bad = [b for b in oks if not any(edge_dominates(f, sb, tb, b) for (sb, tb) in edges)]
+            ok = bool(edges) and bool(oks) and not bad
+            why = ("%d empty-line edge(s); %d success exit(s) after the loop, %d of them not behind such an edge" % (len(edges), len(oks), len(bad)))
+            chk.instance(rule, c.where(), "%s: the header loop returns success only after the blank line" % f.path, ok, why)
+            if not ok:
+                chk.finding(rule, f.key, "blank-line", "", c.where(),
+                            "%s reads header lines in a loop but can return success without having read the blank line that ends the head (%s): "
+                            "the unread rest of the head stays in the stream and is relayed into the tunnel as payload" % (f.path, why))
+    chk.floor(rule, n, 1, "line-reading loops in the HTTP codec")
+
 
 
 def run(chk, prog):
@@ -129,6 +177,7 @@ def run(chk, prog):
     # line cut by the length limit and taken for complete shifts the end of the head, and the rest of the head is relayed as payload
     from . import c12 as _c12
     _c12.rule_s2(chk, prog, "DELIM")
+    rule_head_end(chk, prog)
 
     # WIRE: encoder/decoder layout agreement of the SOCKS messages
     shared.rule_wire(chk, prog)
